@@ -172,6 +172,19 @@ func (l *staticLeaf) Static() bool {
 		}
 		ancestor = ancestor.getParent()
 	}
+
+	// A preceding sibling with the same literals (i.e. the optional form "/?users"
+	// of "/users") takes precedence in the tree, so the route is not the one to be
+	// served for its own path.
+	for _, sibling := range l.parent.getLeaves() {
+		s, ok := sibling.(*staticLeaf)
+		if !ok || s == l {
+			break
+		}
+		if s.literals == l.literals {
+			return false
+		}
+	}
 	return true
 }
 
